@@ -5,7 +5,7 @@ T = "hed/validator/util/tag_util.py"
 V = "hed/validator/hed_validator.py"
 
 class_model("TagValidator", {})
-class_model("HedValidator", {"_hed_schema": "Opaque", "_definitions_allowed": "Bool"})
+class_model("HedValidator", {"_hed_schema": "Opaque", "_definitions_allowed": "Bool", "_def_validator": "DefValidator"})
 
 # "errors" = severity below WARNING (10)
 contract("C12.check_for_any_errors", file=E, func="check_for_any_errors",
@@ -72,3 +72,61 @@ contract("C01.validate", file=V, func="HedValidator.validate",
              "C01.validate.nothing_invented": "all_in(result, lambda x: x in basic or x in full)",
              "C12.validate.errors_only_when_asked": "implies(not warn, all_in(result, lambda x: x.severity <= 1))",
          })
+
+# ---- run_basic_checks: the callees are named by uninterpreted functions (deterministic, well-formed issues: trusted here,
+#      each has or will get its own contract); what is proved is the orchestration: order, early exits, nothing dropped
+WF = "all_in(result, lambda x: issue_wf(x))"
+HV = {"self": "HedValidator"}
+contract("C01.run_hed_string_validators", file=V, func="HedValidator._run_hed_string_validators",
+         params=dict(HV, hed_string_obj="HedString", allow_placeholders="Bool"), returns="List[Issue]", enc="native", trusted=True,
+         ensures={"named": "result == string_issues_of(self, hed_string_obj, allow_placeholders)", "wf": WF})
+contract("C01.run_validate_tag_characters", file=V, func="HedValidator._run_validate_tag_characters",
+         params=dict(HV, original_tag="HedTag", allow_placeholders="Bool"), returns="List[Issue]", enc="native", trusted=True,
+         ensures={"named": "result == char_issues_of(self, original_tag, allow_placeholders)", "wf": WF})
+contract("C01.calculate_to_canonical_forms", file="hed/models/hed_string.py", func="HedString._calculate_to_canonical_forms",
+         params={"self": "HedString", "hed_schema": "Opaque"}, returns="List[Issue]", enc="native", trusted=True,
+         ensures={"named": "result == canonical_issues_of(self)", "wf": WF})
+contract("C01.validate_individual_tags_in_hed_string", file=V, func="HedValidator._validate_individual_tags_in_hed_string",
+         params=dict(HV, hed_string_obj="HedString", allow_placeholders="Bool"), returns="List[Issue]", enc="native", trusted=True,
+         ensures={"named": "result == tag_rule_issues_of(self, hed_string_obj, allow_placeholders)", "wf": WF})
+class_model("DefValidator", {})
+class_model("HedValidatorFields", {})
+contract("C01.validate_def_tags", file="hed/validator/def_validator.py", func="DefValidator.validate_def_tags",
+         params={"self": "DefValidator", "hed_string_obj": "HedString", "hed_validator": "HedValidator"}, returns="List[Issue]",
+         enc="native", trusted=True, ensures={"named": "result == def_issues_of(hed_validator, hed_string_obj)", "wf": WF})
+contract("C01.get_all_tags", file="hed/models/hed_group.py", func="HedGroup.get_all_tags",
+         params={"self": "HedGroup"}, returns="List[HedTag]", enc="native", trusted=True,
+         ensures={"named": "result == all_tags_of(self)"})
+
+ERR = "lambda x: x.severity < 10"
+contract("C01.run_basic_checks.body", file=V, func="HedValidator.run_basic_checks",
+         params=dict(HV, hed_string="HedString", allow_placeholders="Bool"), returns="List[Issue]", enc="native", prop="C01",
+         locals={"issues": "List[Issue]"},
+         lets={"S": "string_issues_of(self, hed_string, allow_placeholders)", "K": "canonical_issues_of(hed_string)",
+               "R": "tag_rule_issues_of(self, hed_string, allow_placeholders)", "D": "def_issues_of(self, hed_string)",
+               "tags": "all_tags_of(hed_string)", "na": "hed_string.__str__ == 'n/a'",
+               "char_err": "any(any_in(char_issues_of(self, all_tags_of(hed_string)[k], allow_placeholders), lambda x: x.severity < 10)"
+                           " for k in range(len(all_tags_of(hed_string))))"},
+         ensures={
+             "C01.basic.string_level_issues_kept": "all_in(S, lambda x: x in result)",
+             "C01.basic.stops_after_string_level_error": f"implies(any_in(S, {ERR}), all_in(result, lambda x: x in S))",
+             "C01.basic.character_and_resolution_issues_kept": f"implies(not any_in(S, {ERR}) and not na,"
+                 " all_in(K, lambda x: x in result) and all(all_in(char_issues_of(self, tags[k], allow_placeholders), lambda x: x in result)"
+                 " for k in range(len(tags))))",
+             "C01.basic.tag_and_def_rules_run_when_resolved": f"implies(not any_in(S, {ERR}) and not na and not char_err and not any_in(K, {ERR}),"
+                 " all_in(R, lambda x: x in result) and all_in(D, lambda x: x in result))",
+             "C01.basic.issues_well_formed": "all_in(result, lambda x: issue_wf(x))",
+             "C01.basic.stops_after_character_or_resolution_error": f"implies(not any_in(S, {ERR}) and not na and (char_err or any_in(K, {ERR})),"
+                 " all_in(result, lambda x: x in S or x in K or any(x in char_issues_of(self, tags[k], allow_placeholders)"
+                 " for k in range(len(tags)))))",
+         },
+         loops={0: {"invariant": [
+             "all_in(string_issues_of(self, hed_string, allow_placeholders), lambda x: x in issues)",
+             "all(all_in(char_issues_of(self, all_tags_of(hed_string)[k], allow_placeholders), lambda x: x in issues) for k in range(_n))",
+             "all_in(issues, lambda x: issue_wf(x))",
+             "all_in(issues, lambda x: x in string_issues_of(self, hed_string, allow_placeholders) or "
+             "any(x in char_issues_of(self, all_tags_of(hed_string)[k], allow_placeholders) for k in range(_n)))",
+             "implies(any_in(issues, lambda x: x.severity < 10), any(any_in(char_issues_of(self, all_tags_of(hed_string)[k], allow_placeholders),"
+             " lambda x: x.severity < 10) for k in range(_n)))",
+         ]}},
+         calls={"self._def_validator": "DefValidator"})
